@@ -177,7 +177,8 @@ CHECKS = {
                      "'post' last, one start and later one end event per processed member carrying its name and size, update "
                      "payloads of a delivered member sum to its size; reporter() dispatches every item kind to the right "
                      "callback in order, survives empty-queue timeouts, stops at the sentinel; close() posts the sentinel and "
-                     "joins. Interleavings of worker and reporter threads, blocking callbacks and 'none after close()' are NOT "
+                     "joins; over call sequences with callbacks in one session a reporter thread is started only when no earlier "
+                     "one still listens to the queue. Interleavings of worker and reporter threads, blocking callbacks and 'none after close()' are NOT "
                      "decided (no scheduler in this technique).",
                 note=RD_NOTE + "; threading.Thread is a stub; schedules are outside"),
     "C04": dict(engine=B, ref="DESIGN.md §3 (C04)",
